@@ -19,6 +19,8 @@ Prelude == << Func("FK", <<"P">>, <<Return(V("P"))>>),
               Func("FD", <<"P">>, <<Let("Q", V("P")), Return(I(1))>>),
               \* a function that fails while a parameter and a local hold objects
               Func("FE", <<"P">>, <<Let("L", OCtor(I(60))), Let("Q", V("P")), RaiseS("E1")>>),
+              \* two parameters: an object is bound to the first when the evaluation of the second argument fails
+              Func("FK2", <<"P", "Q">>, <<Return(V("P"))>>),
               Let("A", OCtor(I(1))), Let("B", OCtor(I(2))), Let("T", Call("tab", <<I(1), A>>)), Let("U", Call("tup", <<I(1), Bv>>)) >>
 
 Pool == <<
@@ -37,6 +39,13 @@ Pool == <<
   Let("A", OCtor(I(666))),
   Begin(<<Let("X", UCall("FE", <<A>>))>>, <<When("E1", <<Nop>>)>>), Let("X", UCall("FE", <<Bv>>)),
   Begin(<<Let("X", UCall("FE", <<OCtor(I(61))>>))>>, <<When("OTHERS", <<Let("X", UCall("FD", <<A>>))>>)>>),
+  \* a call that fails while its arguments are being bound (an object already given to an earlier parameter)
+  Begin(<<Let("X", UCall("FK2", <<A, Bin("/", I(1), I(0))>>))>>, <<When("OTHERS", <<Nop>>)>>),
+  Begin(<<Let("X", UCall("FK2", <<OCtor(I(71)), Mem(OCtor(I(72)), "fail", <<>>)>>))>>, <<When("OTHERS", <<Let("X", UCall("FK2", <<Bv, I(1)>>))>>)>>),
+  \* the iterator of a traversal given a new object, then copied and the copy dropped: the element still holds the object
+  NotNull(Tt, <<Forall("E", Tt, "auto", <<Let("E", OCtor(I(31))), Let("X", V("E")), Let("X", NullC)>>),
+                NotNull(Mem(Tt, "at", <<I(0)>>), <<PrintS(<<Mem(Mem(Tt, "at", <<I(0)>>), "tag", <<>>)>>)>>)>>),
+  NotNull(Tt, <<Forall("E", Tt, "auto", <<Let("E", OCtor(I(32))), PrintS(<<Bin("==", Mem(V("E"), "tag", <<>>), I(32))>>), NotNull(V("E"), <<PrintS(<<Mem(V("E"), "id", <<>>)>>)>>)>>)>>),
   NotNull(A, <<NotNull(Bv, <<PrintS(<<Mem(A, "other", <<Bv>>), Mem(A, "echo", <<I(4)>>), Mem(Bv, "echo", <<Str("s")>>), Mem(A, "sum", <<I(2), D(3)>>)>>)>>)>>)
 >>
 
